@@ -3,7 +3,7 @@ from lib import *
 
 EXPLANATION = (
     "D1 every splitter (PkgName::new, Summary::pkgbase/pkgversion, Dewey::matches) searches the LAST '-' (rsplitn(2)/rsplit_once/rfind) and never a first-occurrence or unbounded split; "
-    "D2 orientation: prefix -> base role, suffix -> version role; PkgName::new stores the unmodified input as pkgname and (whole, \"\") when there is no '-'; "
+    "D2 orientation: prefix -> base role, suffix -> version role; PkgName::new stores the unmodified input as pkgname and (whole, \"\") when there is no '-', and which arm is taken depends on the result of the '-' search alone (no extra condition such as a non-empty base); "
     "D3 PkgName::new finds the revision with a last-occurrence search for \"nb\" on the version part and parses the text after it as i64 (empty -> 0)")
 NOT_DECIDED = [
     "equality of PkgName's revision and the tokeniser's revision for versions where text follows the final nb<digits> (outside the property's 'ending in' clause)",
@@ -60,6 +60,18 @@ def run(ctx):
                 okv = is_call(v) and const_str(call_args(v)[0]) == "" if is_call(v) and call_args(v) else is_call(v, "String::new")
                 ctx.check(okb and okv, "D2-NODASH", PN, "no-dash-arm", "no '-' -> (whole, \"\")",
                           "without a '-' PkgName stores base=%s version=%s; expected (whole input, \"\")" % (term_str(b), term_str(v)), fn_span(body))
+            # the arm is chosen by the search for '-' alone: found -> split there, not found -> (whole, ""); no condition looks at the parts
+            dsearch = [c for c in p.conds() if c.term[0] == "discr" and is_call(c.term[1], "str>::rsplit_once", "str>::rfind", "str>::split_once", "str>::find")
+                       and len(call_args(c.term[1])) > 1 and const_char(call_args(c.term[1])[1]) == "-" and strip_refs(call_args(c.term[1])[0]) == ("param", 1)]
+            found = [c for c in dsearch if c.fact == ("eq", 1)]
+            onparts = [c for c in p.conds() if c.term[0] != "discr" or not is_call(c.term[1], "str>::rsplit_once", "str>::rfind", "str>::split_once", "str>::find")
+                       if any(sp_["sep"] == "-" and sp_.get("index") is not None for sp_ in find_split_parts(c.term))]
+            bad = (found and not has_dash) or bool(onparts)
+            ctx.check(not bad, "D2-ARM-BY-SEARCH", PN, "ret-%d:%s" % (i, "dash" if has_dash else "no-dash"),
+                      "arm decided by the '-' search result alone",
+                      "a returning path of PkgName::new %s: any string containing a '-' must be split at the last one, whatever the parts look like" % (
+                          "found a '-' but stores (whole, \"\")" if found and not has_dash else "is selected by a condition on a part of the split (%s)" % term_str(onparts[0].term) if onparts else ""),
+                      fn_span(body), nontrivial=False)
             # D3 revision
             rev = fields.get("pkgrevision")
             nbc = [c for c in p.conds() if c.term[0] == "discr" and is_call(c.term[1], "str>::rsplit_once", "str>::split_once", "str>::rfind", "str>::find")
